@@ -7,6 +7,14 @@ ids = [p["id"] for p in props]
 
 # id -> (technique, level text, level note, design ref)
 CLAIMED = {
+ "C07": ("proptest-generated page trees + exhaustive enumeration of all tree shapes up to 7 nodes; reference model (DFS leaf order, nearest-ancestor attributes) as oracle",
+         "Generated-input search over ordered page trees (depth to 12, fan-out 0-5, empty intermediate nodes, attributes placed independently on any node, nodes direct or compressed) and all shapes with <=6 (quick) / <=7 (thorough) nodes x 6 attribute patterns. Every index 0..count+2 and u32::MAX, pages(), num_pages(), media/crop/resources origin are compared with the model, cached and uncached.",
+         "trees are well-formed by construction; files come from the harness writer",
+         "DESIGN.md §4 C07"),
+ "C17": ("proptest-generated (file, prefix) pairs over corpus and generated documents; metamorphic oracle: deep-walk transcript of the prefixed file equals the original's",
+         "Generated-input search: each corpus file and generated documents covering every offset consumer (startxref, table and stream entries, /Prev, stream ranges, scan) are prefixed with 0..1019 arbitrary bytes (boundary lengths weighted; thorough: every length on 5 files) and must produce an identical read transcript including the recovery scan.",
+         "the transcript covers what the walker reads (harness/src/engine/walker.rs); prefixes are sanitised not to contain %PDF-",
+         "DESIGN.md §4 C17"),
  "C02": ("proptest-generated update histories + bounded exhaustive enumeration; reference model (fold of sections) as oracle",
          "Generated-input search over update histories written by an independent PDF writer: 1-5 sections, each classic or stream format, each a partial map number -> direct | compressed | free, random subsection splitting and /Size growth; all 33 824 histories of <=3 sections over two numbers enumerated. Every number 0..Size+2 is resolved (cached and uncached) and compared with the model; trailer and typed page access are checked to be the newest.",
          "well-formedness of generated histories is by construction (see harness/src/props/c02.rs); hybrid-reference files are out of scope",
